@@ -138,7 +138,9 @@ def check_op(case) -> Result:
     r.classes = (op, via, f"n={len(operands)}") + tuple(sorted(set(kinds)))
     # neutraliser for known finding ENGINE-COINCIDENT: operands sharing an identical edge (e.g. the same
     # path twice) make skia-pathops return a wrong region; such tuples are counted and not judged
-    if not case.get("pinned") and _share_edge(operands):
+    if case.get("repeat_rule"):
+        r.classes += ("same-outline-under-both-rules",)
+    if not case.get("pinned") and not case.get("repeat_rule") and _share_edge(operands):
         r.excluded = "ENGINE-COINCIDENT"
         r.rejected = "excluded:coincident-operand-edges"
         return r
@@ -337,10 +339,29 @@ def op_case(draw):
     # Shift the i-th operand by a small index-dependent offset so that repeats are merely near-identical.
     ops = [(k, [[c, [v + (3 * i if j % 2 == 0 else 5 * i) for j, v in enumerate(a)]] for c, a in cm] if k in ("bowtie", "opposite-pair") else cm if k == "refuser" else [[c, [round(v + (0.13 * i if j % 2 == 0 else 0.29 * i), 3) for j, v in enumerate(a)]] for c, a in cm]) for i, (k, cm) in enumerate(ops)]
     rules = [draw(st.sampled_from(["nonzero", "evenodd"])) for _ in range(n)]
+    repeat_rule = False
+    if op != "remove_overlaps" and draw(st.integers(0, 9)) == 0:
+        # the same outline twice, once per fill rule (nested rectangles of one direction: the rules disagree about the
+        # inner one) after an arbitrary first operand: operands are (commands, rule) pairs, not commands alone.
+        # (Engine finding ENGINE-COINCIDENT concerns unions of two repeated pairs; this single axis-aligned pair is
+        # computed correctly by the engine and is therefore judged.)
+        x, y = draw(st.integers(-20, 40)), draw(st.integers(-20, 40))
+        w, h = draw(st.integers(40, 90)), draw(st.integers(40, 90))
+        ix, iy = x + draw(st.integers(5, 15)), y + draw(st.integers(5, 15))
+        iw, ih = w - draw(st.integers(18, 30)), h - draw(st.integers(18, 30))
+        P = [["M", [x, y]], ["L", [x + w, y]], ["L", [x + w, y + h]], ["L", [x, y + h]], ["Z", []], ["M", [ix, iy]], ["L", [ix + iw, iy]], ["L", [ix + iw, iy + ih]], ["L", [ix, iy + ih]], ["Z", []]]
+        first = ops[0]
+        a = draw(st.sampled_from(["nonzero", "evenodd"]))
+        ops = [first, ("nested-rects", P), ("nested-rects", [[c, list(v)] for c, v in P])]
+        rules = [rules[0], a, "evenodd" if a == "nonzero" else "nonzero"]
+        repeat_rule = True
     via = draw(st.sampled_from(["pathops", "pathops", "types", "types-explicit"]))
     if op != "intersection" and via == "types-explicit":
         via = "types"
-    return {"op": op, "via": via, "operands": [c for _, c in ops], "rules": rules, "kinds": [k for k, _ in ops]}
+    case = {"op": op, "via": via, "operands": [c for _, c in ops], "rules": rules, "kinds": [k for k, _ in ops]}
+    if repeat_rule:
+        case["repeat_rule"] = True
+    return case
 
 
 SUBCHECKS = {
